@@ -22,13 +22,15 @@
    offset requests respect the protocol limit (elem_off) and -- when the peer is the master --
    whose greeting lines are read alike by both readers (greet_agree), every complete session
    of a conforming library side is either accepted in full or the PEER is the one blamed.
-   Both conditions on the peer are shown necessary by closed counterexamples; the conditions
-   on the library's configuration beyond side_conf (cfg_scope: a master without MOTD that ends
-   its greeting with the prompt; a slave without a password callback) are a restriction of the
-   proof's scope (secure login and harmless MOTD lines are decided per run by the extracted
-   validator and the reference peer, not by this theorem). *)
+   Both conditions on the peer are shown necessary by closed counterexamples.  Of the library
+   side the wide form (C05_one_side_conforms_wide, B2F/ConformScopeP.v) asks, beyond
+   side_conf, NOTHING of a slave (secure login included: the ;PR response is eight digits
+   whatever the challenge and password) and of a master that its greeting ends with the
+   prompt and that no line of its MOTD (split at CR) starts with SOH, is bracketed like a
+   SID, is a malformed ;FW line or ends with '>' -- each clause shown necessary by a closed
+   counterexample in which the session completes and the master is blamed. *)
 From Verif Require Import Base.Bytes Base.Utf8 B2F.Secure B2F.Side B2F.Grammar B2F.GrammarP
-  B2F.PairDefs B2F.PairP B2F.DeliverP B2F.ConformP B2F.ConformOneP.
+  B2F.PairDefs B2F.PairP B2F.DeliverP B2F.ConformP B2F.ConformOneP B2F.ConformScopeP.
 Open Scope N_scope.
 
 (* FULL STATEMENT (not asserted): whatever the peer sends, as long as the grammar accepts the
@@ -57,6 +59,20 @@ Theorem C05_one_side_conforms : forall (cfg : side_cfg) (peer_stream : bytes),
   match validate m s with VOk => True | VBad who _ _ => who <> c_master cfg end.
 Proof. exact one_side_conforms. Qed.
 Print Assumptions C05_one_side_conforms.
+
+(* the WIDE form: any slave (secure login included), masters with harmless MOTD lines *)
+Theorem C05_one_side_conforms_wide : forall (cfg : side_cfg) (peer_stream : bytes),
+  side_conf cfg -> cfg_scope' cfg -> peer_ok' cfg peer_stream ->
+  let o := exchange cfg peer_stream in
+  x_res o = XNil ->
+  let '(m, s) := if c_master cfg then (x_wire o, peer_stream) else (peer_stream, x_wire o) in
+  match validate m s with VOk => True | VBad who _ _ => who <> c_master cfg end.
+Proof. exact one_side_conforms_wide. Qed.
+Print Assumptions C05_one_side_conforms_wide.
+(* instances meeting the hypotheses: a slave with a password callback answering ;PQ: 23753528,
+   a master with two MOTD lines; the MOTD clauses are needed *)
+Example C05_wide_instances := (wide_slave_run, wide_slave_instance, wide_master_run, wide_master_instance).
+Example C05_motd_needed := (motd_soh_cx, motd_sid_cx, motd_fw_cx, motd_prompt_cx, motd_cr_cx).
 
 (* the conditions on the peer are needed: each stream below meets one and not the other, the
    session completes and the LIBRARY is blamed *)
